@@ -27,3 +27,63 @@ Print Assumptions C01_quote_idempotent.
 Example C01_example :
   set_default_doc (fun d => d) (s2l "the value") (Some (quote (s2l "x"))) true = s2l "the value. Defaults to ""x""".
 Proof. vm_compute. reflexivity. Qed.
+
+(* ---------------------------------------------------------------------------------------------------------------
+   The ReST round trip itself.  Model/RestDoc.v transcribes the ReST emitter (cdd/docstring/emit.py:docstring +
+   emit_param_str; word_wrap off, indent 0) and the ReST scanner / parser (_scan_phase_rest, _parse_phase_rest). *)
+From CDD Require Import RestDoc RestDocProofs.
+
+(* the scanner loses no character: for EVERY string the scanned segments concatenate to the docstring *)
+Theorem C01_rest_scan_lossless : forall doc : str, concat (map snd (scan_rest doc)) = doc.
+Proof. exact scan_rest_lossless. Qed.
+Print Assumptions C01_rest_scan_lossless.
+
+(* it cuts exactly in front of every token when the text between tokens is inert (line_ok: after a token no later
+   prefix of the stack ends with a token -- decided by the text from the last colon on) *)
+Theorem C01_rest_scan_splits_at_tokens : forall (h : str) (tb : str * str) (L : list (str * str)),
+  no_colon h = true -> Forall line_ok (tb :: L) ->
+  scan_rest (h ++ concat (map cat (tb :: L))) = (false, h) :: map (fun x => (true, cat x)) (tb :: L).
+Proof. exact scan_lines. Qed.
+Print Assumptions C01_rest_scan_splits_at_tokens.
+
+(* for EVERY description with clean prose (non-blank first and last character, no colon), distinct plain parameter names
+   (non-empty, no blank / colon, no leading star, not ...kwargs), each parameter with a description and / or a type
+   (no back-tick, no colon, not **...), at least one parameter, optional return entry:
+   the emitter writes header, blank line, ":param n: d" / ":type n: ```t```" blocks separated by blank lines, return lines *)
+Theorem C01_rest_emit_canonical : forall doc ps ret,
+  clean doc = true -> forallb param_ok ps = true -> ps <> [] -> ret_ok ret = true ->
+  emit_rest true doc ps ret = render doc ps ret.
+Proof. exact emit_is_render. Qed.
+Print Assumptions C01_rest_emit_canonical.
+
+(* the parser reads that text back as exactly the description it came from (also with no parameter but a return entry) *)
+Theorem C01_rest_parse_canonical : forall doc ps ret,
+  clean doc = true -> forallb param_ok ps = true -> NoDup (map fst ps) -> ret_ok ret = true -> (ps <> [] \/ ret <> None) ->
+  parse_rest (render doc ps ret) = {| p_doc := doc; p_params := ps; p_ret := ret |}.
+Proof. exact parse_render. Qed.
+Print Assumptions C01_rest_parse_canonical.
+
+(* hence: render-as-ReST then parse-back returns names, order, descriptions, types and the return entry unchanged *)
+Theorem C01_rest_roundtrip : forall doc ps ret,
+  clean doc = true -> forallb param_ok ps = true -> NoDup (map fst ps) -> ps <> [] -> ret_ok ret = true ->
+  parse_rest (emit_rest true doc ps ret) = {| p_doc := doc; p_params := ps; p_ret := ret |}.
+Proof. exact rest_roundtrip. Qed.
+Print Assumptions C01_rest_roundtrip.
+
+(* non-vacuity: a description meeting every hypothesis, and what is written for it *)
+Example C01_rest_example :
+  let ps := [(s2l "dataset_name", {| pe_doc := Some (s2l "name of dataset"); pe_typ := Some (s2l "str") |});
+             (s2l "K", {| pe_doc := None; pe_typ := Some (s2l "Literal['np', 'tf']") |})] in
+  let ret := Some {| pe_doc := Some (s2l "the outcome"); pe_typ := None |} in
+  clean (s2l "Acquire from the official tensorflow_datasets model zoo") = true /\ forallb param_ok ps = true /\ ret_ok ret = true
+  /\ emit_rest true (s2l "Acquire from the official tensorflow_datasets model zoo") ps ret
+     = s2l "Acquire from the official tensorflow_datasets model zoo
+
+:param dataset_name: name of dataset
+:type dataset_name: ```str```
+
+:type K: ```Literal['np', 'tf']```
+
+:return: the outcome
+".
+Proof. vm_compute. repeat split; reflexivity. Qed.
